@@ -1,5 +1,5 @@
 """C16 - malformed models give configuration errors; valid models are never rejected."""
-import io, os, glob, copy
+import base64, io, os, glob, copy
 
 from .. import routes as R, engine, boot
 from ..initext import Ini
@@ -290,6 +290,14 @@ def cases(tier):
         out.append(dict(kind='valid', model='target ' + tgt, text=retarget(M['setfl_fs'], tgt)))
     out.append(dict(kind='valid', model='target eam_adp', text=M['adp'].render()))
     out.append(dict(kind='valid', model='no [Tabulation] section (documented defaults)', text='[Pair]\nO-O : as.buck 1000.0 0.3 32.0\n'))
+    # the same text as editors on other platforms store it: byte-order mark, CR LF / CR line ends, non-ASCII comments
+    lm = M['lammps'].render() if 'lammps' in M else M[sorted(M)[0]].render()
+    out.append(dict(kind='valid', model='file starting with a UTF-8 byte-order mark', text='\ufeff' + lm))
+    out.append(dict(kind='valid', model='CR LF line ends', text=lm.replace('\n', '\r\n')))
+    out.append(dict(kind='valid', model='non-ASCII text in comments', text='# caf\u00e9 \u00c5ngstr\u00f6m \u03c1\n' + lm.replace('[Pair]\n', '[Pair]\n; \u00b5 \u2192\n', 1)))
+    # bytes that are not text in the expected encoding: a configuration error, not a traceback
+    for name, data in (('latin-1 byte in a comment', b'# caf\xe9\n' + lm.encode()), ('UTF-16 file', lm.encode('utf-16')), ('binary file', bytes(range(256)) * 4)):
+        out.append(dict(kind='malformed-bytes', model='lammps', op='bytes:' + name, data=base64.b64encode(data).decode()))
     # large tables given through separate x and y entries (257 .. 5000 points)
     for npt in (256, 257, 300, 1000, 5000):
         xs = ' '.join('%g' % (0.01 * i) for i in range(npt))
@@ -352,6 +360,13 @@ def run_case(case):
         if o[0] != 'accepted':
             viol.append(dict(sig='valid-model-refused:%s' % o[0], msg='shipped example %s is refused: %r' % (case['path'], o), detail={}))
         return dict(outcome='ok:shipped' if not viol else 'violation', nontrivial=True, evals=1, violations=viol)
+    if case['kind'] == 'malformed-bytes':
+        res = R.potable(base64.b64decode(case['data']))
+        if res.exc is not None:
+            viol.append(dict(sig='internal-exception:%s@potable' % type(res.exc).__name__, msg='%s: potable raised %s (%s) instead of reporting a configuration error' % (case['op'], type(res.exc).__name__, res.exc), detail={}))
+        elif not res.config_error:
+            viol.append(dict(sig='malformed-accepted:%s' % case['op'], msg='%s: potable exit status %r, %d bytes written' % (case['op'], res.status, len(res.out_bytes or '')), detail={}))
+        return dict(outcome='rejected:bytes' if not viol else 'violation', nontrivial=True, evals=1, violations=viol)
     text = case['text']
     binary = 'excel' in text.split('[Pair]')[0] if '[Pair]' in text else False
     o1 = observe(text)
